@@ -176,7 +176,7 @@ crc32_ieee_dispatch_init:
 	mov     eax, 1
 	cpuid
 	mov	ebx, ecx ; save cpuid1.ecx
-	test    ecx, FLAG_CPUID1_ECX_SSE3
+	test    ecx, FLAG_CPUID1_ECX_SSE4_1
 	jz      .crc_ieee_init_done ; use ieee_base
 	test    ecx, FLAG_CPUID1_ECX_CLMUL
 	jz	.crc_ieee_init_done ; use ieee_base
@@ -257,7 +257,7 @@ crc16_t10dif_dispatch_init:
 	mov     eax, 1
 	cpuid
 	mov	ebx, ecx ; save cpuid1.ecx
-	test    ecx, FLAG_CPUID1_ECX_SSE3
+	test    ecx, FLAG_CPUID1_ECX_SSE4_1
 	jz      .t10dif_init_done ; use t10dif_base
 	test    ecx, FLAG_CPUID1_ECX_CLMUL
 	jz	.t10dif_init_done ; use t10dif_base
